@@ -79,6 +79,25 @@ def main(argv):
                 x = ref[st["tid"] - 1]
                 ev = x["events"][st["l"] - 1][:300] if st["l"] >= 1 else ""
                 rep.violation(st["bad"], {"id": x["id"]}, detail={"first_differing_event_index": st["l"], "reference_event": ev, "seed": seeds[st["other"] - 1]})
+        # design-level statement of the property: Pipeline.tla computes the result from the input graph ALONE (no hash seed exists in the
+        # model); the real code, run under hash seeds other than the reference one, must produce exactly that result
+        if not args.replay:
+            from . import pipefam
+
+            pin = [x for x in pipefam.pipe_inputs(args.tier, args.seed)]
+            pc = {}
+            for hs in seeds[1:2] if quick else seeds[1:4]:
+                try:
+                    out = pipefam.run_pipeline_under_seed(pin, d, args.jobs, hs)
+                except tlc.MachineryError as e:
+                    rep.add_drift({"pipeline_conformance_run_failed": str(e)[:300], "hash_seed": hs})
+                    continue
+                pc[str(hs)] = {"behaviours": out["behaviours"], "drift": len(out["drift"])}
+                states += out["states"]
+                for x in out["drift"][:10]:
+                    print("DRIFT: under PYTHONHASHSEED=%d the code's result differs from Pipeline.tla's on %s: %s" % (hs, x["id"], x["what"]))
+                    rep.add_drift({"pipeline_level": True, "hash_seed": hs, **x})
+            rep.coverage["model_predicts_result_under_other_hash_seeds"] = pc
     finally:
         tlc.cleanup(d)
     rep.coverage.update({
